@@ -534,9 +534,9 @@ fn check_int_boundaries(ctx: &mut Ctx) {
             }
             None => {
                 if let Some(w) = known {
-                    // listed in /verif/known_findings.json (open): an integer beyond 2^53 and a double are
-                    // compared through the integer's nearest double, `==` by variant
-                    ctx.case("int-boundaries", &key, "known", serde_json::json!({"class": "C05/int-vs-float-comparison-beyond-2^53", "what": w, "got": String::from_utf8_lossy(&c.imp.stdout), "case": info}));
+                    // (was the open finding C05/int-vs-float-comparison-beyond-2^53, repaired in /repo
+                    // 8e2945c: integers and doubles are compared exactly — an ordinary violation now)
+                    ctx.case("int-boundaries", &key, "viol", serde_json::json!({"class": "C05/int-vs-float-comparison-beyond-2^53", "what": w, "got": String::from_utf8_lossy(&c.imp.stdout), "case": info}));
                 } else {
                     ctx.case("int-boundaries", &key, "pass", info.clone());
                 }
